@@ -90,6 +90,7 @@ def run(chk, replay=None):
         # event order in the catalog is shuffled: the bins sequence handed to TLC is the multiset in bin order
         ev_bins = sorted(j + 1 for j in bins)
         alpha = an / ad
+        snap = (numpy.array(fa.data).tobytes(), numpy.array(fb.data).tobytes(), cat.catalog.tobytes())
         r_ab = guarded(pe.paired_t_test, fa, fb, cat, alpha=alpha, scale=scale)
         r_ba = guarded(pe.paired_t_test, fb, fa, cat, alpha=alpha, scale=scale)
         nact = len(set(bins))
@@ -98,6 +99,10 @@ def run(chk, replay=None):
         rw_ab = guarded(pe.w_test, fa, fb, cat, scale=scale)
         rw_ba = guarded(pe.w_test, fb, fa, cat, scale=scale)
         chk.count(6)
+        if snap != (numpy.array(fa.data).tobytes(), numpy.array(fb.data).tobytes(), cat.catalog.tobytes()):
+            chk.violation('comparison tests changed their inputs', {'style': style, 'scale': scale, 'n': n,
+                          'forecast_a_changed': snap[0] != numpy.array(fa.data).tobytes(), 'forecast_b_changed': snap[1] != numpy.array(fb.data).tobytes(),
+                          'catalog_changed': snap[2] != cat.catalog.tobytes()})
         days = 30.0
         da = numpy.array(a, dtype=float) / days if scale else numpy.array(a, dtype=float)
         db = numpy.array(b, dtype=float) / days if scale else numpy.array(b, dtype=float)
